@@ -374,3 +374,14 @@ Example cex_bv_ite_to_bvcomp_unsound_oracle :
   let e := T [lf "ite"; T [lf "="; lf "p"; lf "q"]; lf "#b1"; lf "#b0"] in
   exists e', rw_bv_ite_to_bvcomp (fun _ => true) e = Some [e'] /\ type_of ex_g e = Some (sBV 1) /\ type_of ex_g e' = None.
 Proof. eexists. vm_compute. repeat split. Qed.
+
+(* LetSubstitution (after fix F31; Model/LetRw.v): the proposal has the value of the node under every valuation,
+   provided the bound names occur in the body in term positions only and are pairwise distinct (let_side; both
+   conditions hold of well-sorted terms and are shown necessary by examples in Props/C17Let.v) *)
+From DD Require Import Props.C17Let.
+Theorem c17_let_subst_identity : ltac:(let t := type of rw_let_subst_identity in exact t).
+Proof. exact rw_let_subst_identity. Qed.
+Print Assumptions c17_let_subst_identity.
+Theorem c17_let_subst_identity_at : ltac:(let t := type of rw_let_subst_identity_at in exact t).
+Proof. exact rw_let_subst_identity_at. Qed.
+Print Assumptions c17_let_subst_identity_at.
